@@ -7,6 +7,7 @@ import Verif.Model.CharMap
 import Verif.Model.States
 import Verif.Model.Tokenizer
 import Verif.Model.ExprParser
+import Verif.Model.Value
 
 open Verif
 
@@ -247,6 +248,112 @@ def doParse (args : List String) : String :=
       let vars := if st.vars.isEmpty then "-" else " ".intercalate (st.vars.map showRunes)
       s!"ok {out} ; {vars}"
 
+/-! ### values: encoding shared with the Go harness -/
+
+def hexDigit (n : Nat) : Char := if n < 10 then Char.ofNat (48 + n) else Char.ofNat (87 + n)
+def toHex (width : Nat) (n : Nat) : String :=
+  String.ofList ((List.range width).reverse.map fun i => hexDigit ((n / (16 ^ i)) % 16))
+def fromHex (s : String) : Option Nat :=
+  s.toList.foldl (fun acc ch =>
+    match acc with
+    | none => none
+    | some a =>
+      let c := ch.toNat
+      if 48 ≤ c && c ≤ 57 then some (a * 16 + (c - 48))
+      else if 97 ≤ c && c ≤ 102 then some (a * 16 + (c - 87))
+      else none) (some 0)
+
+partial def encV : V → String
+  | .null => "n"
+  | .int v => s!"i{v.toInt}"
+  | .long v => s!"l{v.toInt}"
+  | .float f => if f != f then "fNaN" else "f" ++ toHex 8 f.toBits.toNat
+  | .double d => if d != d then "dNaN" else "d" ++ toHex 16 d.toBits.toNat
+  | .str s => "s" ++ ".".intercalate (s.map toString)
+  | .bool b => if b then "b1" else "b0"
+  | .dateTime s n => s!"t{s}.{n}"
+  | .timeSpan ns => s!"p{ns.toInt}"
+  | .object _ => "o"
+  | .array es => "a[" ++ "/".intercalate (es.map encV) ++ "]"
+  | .host tag args => "H" ++ tag ++ "(" ++ ";".intercalate (args.map encV) ++ ")"
+
+/-- split "x/y/a[z/w]" at top-level slashes -/
+def splitTop (s : List Char) : List (List Char) :=
+  let rec go (cs : List Char) (depth : Nat) (cur : List Char) (acc : List (List Char)) : List (List Char) :=
+    match cs with
+    | [] => (cur.reverse :: acc).reverse
+    | c :: rest =>
+      if c == '[' then go rest (depth + 1) (c :: cur) acc
+      else if c == ']' then go rest (depth - 1) (c :: cur) acc
+      else if c == '/' && depth == 0 then go rest depth [] (cur.reverse :: acc)
+      else go rest depth (c :: cur) acc
+  go s 0 [] []
+
+partial def decV (s : String) : Option V :=
+  match s.toList with
+  | [] => none
+  | 'n' :: [] => some .null
+  | 'i' :: r => (String.ofList r).toInt?.map fun i => V.int (Int64.ofInt i)
+  | 'l' :: r => (String.ofList r).toInt?.map fun i => V.long (Int64.ofInt i)
+  | 'f' :: r =>
+    if String.ofList r == "NaN" then some (.float (Float32.ofBits 0x7fc00000))
+    else (fromHex (String.ofList r)).map fun n => V.float (Float32.ofBits n.toUInt32)
+  | 'd' :: r =>
+    if String.ofList r == "NaN" then some (.double (Float.ofBits 0x7ff8000000000000))
+    else (fromHex (String.ofList r)).map fun n => V.double (Float.ofBits n.toUInt64)
+  | 's' :: r =>
+    if r.isEmpty then some (.str [])
+    else some (.str (((String.ofList r).splitOn ".").filterMap String.toNat?))
+  | 'b' :: r => some (.bool (String.ofList r == "1"))
+  | 't' :: r =>
+    match (String.ofList r).splitOn "." with
+    | [a, b] => match a.toInt?, b.toNat? with
+      | some a, some b => some (.dateTime a b)
+      | _, _ => none
+    | _ => none
+  | 'p' :: r => (String.ofList r).toInt?.map fun i => V.timeSpan (Int64.ofInt i)
+  | 'o' :: _ => some (.object 0)
+  | 'a' :: '[' :: r =>
+    let inner := r.dropLast
+    if inner.isEmpty then some (.array [])
+    else
+      let parts := (splitTop inner).map fun p => decV (String.ofList p)
+      if parts.all Option.isSome then some (.array (parts.filterMap id)) else none
+  | _ => none
+
+def encR : R → String
+  | .ok v => "ok " ++ encV v
+  | .err c => "err " ++ c
+  | .panic s => "panic " ++ s
+
+def parseMgr (s : String) : Mgr := if s == "s" then .safe else .unsafe_
+
+def opNames : List (String × Op) :=
+  [("add", .add), ("sub", .sub), ("mul", .mul), ("div", .div), ("mod", .mod), ("pow", .pow),
+   ("and", .and), ("or", .or), ("xor", .xor), ("lsh", .lsh), ("rsh", .rsh), ("not", .not),
+   ("neg", .neg), ("equal", .equal), ("notEqual", .notEqual), ("more", .more), ("less", .less),
+   ("moreEqual", .moreEqual), ("lessEqual", .lessEqual), ("in", .in_), ("getElement", .getElement)]
+
+def doOp (args : List String) : String :=
+  match args with
+  | [m, name, a, b] =>
+    match opNames.lookup name, decV a, decV b with
+    | some op, some va, some vb => encR (binop (parseMgr m) op va vb)
+    | _, _, _ => "bad-op"
+  | [_, name, a] =>
+    match opNames.lookup name, decV a with
+    | some op, some va => encR (unop op va)
+    | _, _ => "bad-op"
+  | _ => "bad-op"
+
+def doConv (args : List String) : String :=
+  match args with
+  | [m, a, t] =>
+    match decV a, t.toNat? with
+    | some va, some tn => encR (convert (parseMgr m) va (VT.ofCode tn))
+    | _, _ => "bad-op"
+  | _ => "bad-op"
+
 def handle (line : String) : String :=
   match (line.trimAscii.toString.splitOn " ").filter (· != "") with
   | [] => ""
@@ -259,6 +366,8 @@ def handle (line : String) : String :=
   | "sym" :: args => doSym args
   | "quote" :: args => doQuote args
   | "parse" :: args => doParse args
+  | "op" :: args => doOp args
+  | "conv" :: args => doConv args
   | _ => "bad-op"
 
 end Drv
